@@ -86,6 +86,34 @@ class sut:
         raise Violation(f"{self.what}: code under test raised {et.__name__}: {ev}{where}", key=self.key) from ev
 
 
+class plain_stack:
+    """Context manager: inside the block the interpreter's recursion limit is what a fresh interpreter leaves to code
+    called from a shallow script (limit 1000, about fifty frames in use), whatever the harness did to it: Hypothesis
+    raises the limit by a few thousand frames while it runs a test, which would hide a recursion that an ordinary
+    caller runs out of.  With active=False it does nothing."""
+
+    def __init__(self, active=True):
+        self.active = active
+
+    def __enter__(self):
+        if self.active:
+            import sys
+
+            self.old = sys.getrecursionlimit()
+            depth, f = 0, sys._getframe()
+            while f is not None:
+                depth, f = depth + 1, f.f_back
+            sys.setrecursionlimit(depth + 950)
+        return self
+
+    def __exit__(self, et, ev, tb):
+        if self.active:
+            import sys
+
+            sys.setrecursionlimit(self.old)
+        return False
+
+
 def canon(obj) -> str:
     return json.dumps(obj, sort_keys=True, ensure_ascii=True, separators=(",", ":"), default=_default)
 
